@@ -225,6 +225,10 @@ Definition sem_equiv (a b : sem) : Prop :=
 Definition psound (r : prule) : Prop :=
   forall env, env_ok env -> Forall (pholds env) (pr_conds r) ->
   forall x y, ppev env (pr_lhs r) = Some x -> ppev env (pr_rhs r) = Some y -> sem_equiv x y.
+(** a rewrite keeps a buildable plan buildable: whenever the left-hand side has a meaning, so has the right-hand side *)
+Definition pbuildable (r : prule) : Prop :=
+  forall env, env_ok env -> Forall (pholds env) (pr_conds r) ->
+  forall x, ppev env (pr_lhs r) = Some x -> exists y, ppev env (pr_rhs r) = Some y.
 (** a counterexample: a well-formed binding satisfying the conditions on which the two sides return
     different numbers of rows *)
 Definition rows_of_sem (s : sem) : list arow := match s with MRel _ rows => rows | _ => [] end.
